@@ -337,7 +337,73 @@ def r5_put_stores(ctx):
     ctx.floor(rule, n_ok, 4, "store bodies with an own Ok return")
 
 
+def r6_stats_from_books(ctx):
+    """what stats() reports as the current entry count / bytes is the cache's own book (the counters R3 pairs with every map mutation), not a
+    metrics collector's running totals (which count puts and never subtract on replace / remove / expiry)"""
+    rule = "C10.R6"
+    ctx.rule(rule, "the entry_count / memory_usage_bytes a cache reports in CacheStats derive from loads of its own counters")
+    n = 0
+    for name, c in CACHES.items():
+        for b in ctx.prog.bodies.values():
+            if b.krate != "cascette_cache" or not re.search(c["file"], b.file or "") or b.item != "cache_stats" or b.root:
+                continue
+            for (i, j, st) in b.stmts():
+                r = st["r"]
+                if r["k"] != "Agg" or not str(r.get("adt", "")).endswith("stats::CacheStats") or i not in b.live_blocks():
+                    continue
+                ctx.saw(b)
+                for fld, counter in (("entry_count", c["count"]), ("memory_usage_bytes", c["usage"])):
+                    if fld not in r.get("fields", []):
+                        continue
+                    o = r["o"][r["fields"].index(fld)]
+                    l = op_local(o)
+                    own = False
+                    if l is not None:
+                        sl = Slice(b, [l], transparent=True)
+                        own = any(re.search(r"Atomic\w*(::<\w+>)?::load$", x.name) and on_field(recv_fields(b, x), counter) for x in sl.calls)
+                    n += 1
+                    ctx.check(own, rule, [name, "stats", fld], "%s.stats().%s is a load of self.%s" % (c["type"], fld, counter),
+                              "%s::cache_stats fills CacheStats.%s from something other than a load of its own counter `%s`: a metrics collector's total grows on "
+                              "every put (replaces included) and never shrinks on remove or expiry, so after any replace / remove / expiry stats() reports more "
+                              "than a reader can retrieve" % (c["type"], fld, counter), "%s:%s" % (b.file, st.get("l", 0)),
+                              sample={"cache": c["type"], "field": fld, "counter": counter})
+    ctx.floor(rule, n, 4, "book fields reported by cache_stats of the memory and disk caches")
+
+
+def r7_clear_sweeps_everything(ctx):
+    """DiskCache::clear leaves nothing a later get could serve: a new instance on an old directory serves files through the not-indexed fallback, so
+    the directory sweep behind the index walk must remove EVERY file - on every iteration of its read_dir loop the entry is removed or descended into"""
+    rule = "C10.R7"
+    ctx.rule(rule, "the directory sweep reached from DiskCache::clear removes (or recurses into) every directory entry on every iteration path")
+    clears = [b for b in ctx.prog.bodies.values() if b.krate == "cascette_cache" and re.search(r"disk_cache\.rs$", b.file or "") and
+              re.search(r"AsyncCache.*::clear::\{closure#0\}$|DiskCache.*::clear::\{closure#0\}$", ctx._stable(b.id))]
+    if not ctx.anchor(rule, clears, "DiskCache::clear"):
+        return
+    cl = ctx.prog.closure_of([b.id for b in clears])
+    n = 0
+    from .c12 import some_edge
+    for bid in sorted(cl):
+        b = ctx.prog.bodies.get(bid)
+        if b is None or b.krate != "cascette_cache" or not any(re.search(r"^std::fs::read_dir$", c.name) for c in b.calls):
+            continue
+        nxs = [c for c in b.calls if c.bb in b.live_blocks() and re.search(r"\bIterator>?::next$", c.orig_name or c.name) and "ReadDir" in (c.full or "")]
+        rm = {c.bb for c in b.calls if c.bb in b.live_blocks() and (re.search(r"^std::fs::(remove_file|remove_dir_all)$", c.name) or c.id == b.id)}
+        for nx in nxs:
+            n += 1
+            ctx.saw(b)
+            se = some_edge(b, nx)
+            skipping = se is not None and nx.bb in b.reachable([se], avoid=rm)
+            ctx.check(bool(rm) and se is not None and not skipping, rule, [b.id, "every-entry"], "every directory entry is removed or descended into",
+                      "%s walks the cache directory for clear() but some path through the loop body neither removes the entry nor recurses into it (a filter on "
+                      "the file name or extension): files that are not in this instance's index - everything written by an earlier instance - survive "
+                      "clear() and are served again by the not-indexed fallback of get()" % ctx._stable(b.id), nx.loc(),
+                      sample={"sweep": b.id, "remove_blocks": sorted(rm)})
+    ctx.floor(rule, n, 1, "read_dir loops reached from DiskCache::clear")
+
+
 def run(ctx):
+    r6_stats_from_books(ctx)
+    r7_clear_sweeps_everything(ctx)
     r4_store_errors(ctx)
     r5_put_stores(ctx)
     r1_limits(ctx)
